@@ -147,7 +147,10 @@ def run(ctx):
         fails.append({"why": "scenario produced no verdict (harness crashed or timed out)", "seed": s, "tier": tier,
                       "replay_cmd": "%s replay %d %s" % (ctx.bin_path("h_onchain"), s, tier)})
     agg = {}
-    kinds = {"chan_type": {}, "closer": {}, "prev_commitment": {}, "n_htlcs": {}}
+    kinds = {"chan_type": {}, "closer": {}, "prev_commitment": {}, "n_htlcs": {}, "splice": {}}
+    splice_names = {0: "none", 1: "splice-in confirmed, closed on the new funding", 2: "splice-out confirmed, closed on the new funding",
+                    3: "splice-in never confirmed, closed on the original funding", 4: "splice-out never confirmed, closed on the original funding"}
+    splice_holder_judged = 0
     known_hit = {}
     nontrivial = 0
     for r in recs:
@@ -156,6 +159,10 @@ def run(ctx):
             for k in ("chan_type", "closer", "prev_commitment"):
                 v = str(cfg.get(k))
                 kinds[k][v] = kinds[k].get(v, 0) + 1
+            sp = (cfg.get("splice") or [0])[0]
+            kinds["splice"][splice_names.get(sp, str(sp))] = kinds["splice"].get(splice_names.get(sp, str(sp)), 0) + 1
+            if sp in (1, 2) and r.get("ok") and not r.get("aborted"):
+                splice_holder_judged += 1
             nh = str(len(cfg.get("htlcs", [])))
             kinds["n_htlcs"][nh] = kinds["n_htlcs"].get(nh, 0) + 1
         st = r.get("stats") or {}
@@ -179,6 +186,20 @@ def run(ctx):
     ctx.coverage["onchain_totals"] = agg
     ctx.coverage["onchain_scenario_histograms"] = kinds
     ctx.coverage["onchain_first_seed"] = first
+    ctx.coverage["onchain_input_distribution"] = (
+        "ASYMMETRIC nodes by default: our_to_self_delay drawn per node from 144..215, never equal; our_htlc_minimum_msat "
+        "per node from 1..1000; per-node fee estimators moving independently during the run; channel type (non-anchor, "
+        "anchors with zero-fee HTLC transactions, zero-fee commitments) per channel; the dust limit is a constant of the "
+        "implementation and the same on both sides. One scenario in four (never with the previous-commitment mode) "
+        "negotiates a splice-in or splice-out first that is never locked: in half of them it confirms and the channel "
+        "is closed by a commitment on the new funding (the monitor's pending scope), in the other half it never "
+        "confirms and the original funding's commitment closes the channel.")
+    # the scope judges are vacuous without scenarios in which the pending scope's commitment confirmed
+    ok_sp = len(recs) < 150 or splice_holder_judged > 0
+    ctx.obligations.append(("coverage:pending-funding-scope-closes", ok_sp, "%d judged scenarios in which a commitment on a confirmed, never locked splice closed the channel" % splice_holder_judged))
+    if not ok_sp:
+        fails.append({"why": "no scenario closed the channel on a pending funding scope: the funding-scope judges were vacuous", "seed": first, "tier": tier,
+                      "replay_cmd": "%s replay %d %s" % (ctx.bin_path("h_onchain"), first, tier)})
     ok = [r for r in recs if r.get("ok") and not r.get("aborted")]
     if ok:
         for r in (ok[0], ok[len(ok) // 2]):
